@@ -180,7 +180,9 @@ def cert_chain(before, after, num):
             last = B[cur][-1]
             if last[0] not in JUMPS:
                 break
-            tg = {_resolve(B, a[1]) for a in last[1] if a[0] == "lab"}
+            tg = {a[1] for a in last[1] if a[0] == "lab"}
+            if len(tg) != 1 or not (tg <= set(B)):
+                tg = {_resolve(B, a[1]) for a in last[1] if a[0] == "lab"}
             if len(tg) != 1 or None in tg:
                 break
             nxt = tg.pop()
